@@ -5,17 +5,22 @@ src/halmos/bytevec.py, run in lock step with the flat model on the same commands
 
 1. TLC checks the laws of the flat model on its own (MC_ByteSeq).
 2. TLC checks Flatten(ChunkVec) = ByteSeq, chunk well-formedness, CopyIndependence and agreement of the
-   implementation-shaped read paths over all histories of the level schedules MC_ChunkVec_{q,t}*.cfg with
-   the case `bytevec-aligned-nested-alias` excluded (must hold), and over the FAITHFUL model
-   (MC_ChunkVec_alias.cfg), where TLC is expected to exhibit the counterexample.
+   implementation-shaped read paths over all histories of the level schedules MC_ChunkVec_{q,t}*.cfg; the
+   alphabet contains every command, in particular the whole-vector argument written exactly over one
+   existing chunk (the case of the former finding `bytevec-aligned-nested-alias`, repaired by halmos
+   commit 1a97aee).
 3. Conformance: TLC generates histories with the expected flat value after every command (one JSON
    record per transition of the state graph, plus long random histories under -simulate); each is replayed
-   into real ByteVec objects and into halmos.sevm.State (set_mslice / mslice / __deepcopy__) and read back
-   through the public read API after every command (harness/bytevec_replay.py).
-4. The counterexamples of the faithful model are replayed: if the real code behaves as the chunk model
-   predicts (and therefore not as a flat array), that is a violation of C07 with the stable key
-   `bytevec-aligned-nested-alias`.
-5. Negative controls: deliberately broken ByteVec variants and a corrupted expectation must be rejected.
+   into real ByteVec objects and into halmos.sevm.State (set_mslice / mslice / __deepcopy__ /
+   copy_returndata_to_memory) and read back through the public read API after every command
+   (harness/bytevec_replay.py).  A disagreement after a command of the alias case is reported under the
+   reserved key `bytevec-aligned-nested-alias`.
+4. Regression model: the chunk model of the code BEFORE the repair (Mutant = "alignedref") must be refuted
+   by TLC; every violating history it lists is replayed: the real ByteVec/State must agree with the flat
+   model on it (otherwise: VIOLATION `bytevec-aligned-nested-alias`), and the deliberately re-broken
+   variant `reintroduce-aligned-alias` must be rejected on it.
+5. Negative controls: deliberately broken ByteVec variants (built from the current source text), wrong
+   chunk models and a corrupted expectation must all be rejected.
 """
 
 from __future__ import annotations
@@ -33,18 +38,18 @@ LEVEL = "model_checking"
 TIERS = {
     "quick": {
         "flat": ["MC_ByteSeq_q.cfg"],
-        "refine": ["MC_ChunkVec_q1.cfg"],
+        "refine": ["MC_ChunkVec_q0.cfg"],
         "gen": ["MC_ChunkVec_g1.cfg", "MC_ChunkVec_g2.cfg"],
-        "sim": [(200, 41)],  # (traces, seed offset) per single-worker TLC run
+        "sim": [(60, 41)],  # (traces, seed offset) per single-worker TLC run
         "variant_stride": 25,
         "coverage": False,
     },
     "thorough": {
         "flat": ["MC_ByteSeq.cfg"],
-        "refine": ["MC_ChunkVec_q1.cfg", "MC_ChunkVec_q2.cfg", "MC_ChunkVec_t1.cfg", "MC_ChunkVec_t2.cfg",
+        "refine": ["MC_ChunkVec_q0.cfg", "MC_ChunkVec_q1.cfg", "MC_ChunkVec_q2.cfg", "MC_ChunkVec_t1.cfg", "MC_ChunkVec_t2.cfg",
                    "MC_ChunkVec_t3.cfg", "MC_ChunkVec_t4.cfg", "MC_ChunkVec_t5.cfg"],
         "gen": ["MC_ChunkVec_g1.cfg", "MC_ChunkVec_g2.cfg", "MC_ChunkVec_g3.cfg", "MC_ChunkVec_g4.cfg"],
-        "sim": [(750, 100 + i) for i in range(8)],
+        "sim": [(400, 100 + i) for i in range(8)],
         "variant_stride": 10,
         "coverage": True,
     },
@@ -52,9 +57,14 @@ TIERS = {
 
 REAL = ["ByteVec", "State"]
 
+# wrong variants of the chunk MODEL and the invariant that must reject each (negative controls of the invariants)
+MODEL_MUTANTS = {"post": "InvRefines", "slicefill": "InvReadsAgree", "copyalias": "InvCopyIndependence"}
+REGRESSION_CFG = "MC_ChunkVec_m_alignedref.cfg"  # the chunk model of the code before halmos commit 1a97aee
+REGRESSION_VARIANT = "reintroduce-aligned-alias"
+
 # branches of set_slice / set_byte (ChunkVec!Branch) that the replayed histories must reach
 REQUIRED_BRANCHES = {
-    "noop", "backfill", "backfill-gap", "aligned",
+    "noop", "backfill", "backfill-gap", "aligned", "general+same+wholechunk",
     "general+pre+post+same", "general+pre+same", "general+post+same",
     "general+post+remove", "general+pre+post+remove", "general+pre+remove", "general+remove",
     "general+extend", "general+pre+extend", "general+extend+remove", "general+pre+extend+remove",
@@ -93,12 +103,16 @@ def _run(chk: Check, tier: str, T: dict, work):
     fut = {}
     for cfg in T["flat"]:
         fut[("flat", cfg)] = pool.submit(_tlc, "MC_ByteSeq", cfg, work, workers=w_small, coverage=T["coverage"])
-    fut[("alias", "MC_ChunkVec_alias.cfg")] = pool.submit(
-        _tlc, "MC_ChunkVec", "MC_ChunkVec_alias.cfg", work, workers=w_small, expect_violation=True,
+    fut[("regression", REGRESSION_CFG)] = pool.submit(
+        _tlc, "MC_ChunkVec", REGRESSION_CFG, work, workers=w_small, expect_violation=True,
         extra=["-continue"],  # list every violating history of the bounded graph, not only the first
     )
     for cfg in T["gen"]:
         fut[("gen", cfg)] = pool.submit(_tlc, "MC_ChunkVec", cfg, work, workers=w_small)
+    for m in MODEL_MUTANTS:
+        fut[("mutant", m)] = pool.submit(
+            _tlc, "MC_ChunkVec", f"MC_ChunkVec_m_{m}.cfg", work, workers=w_small, expect_violation=True
+        )
     for n, so in T["sim"]:
         fut[("sim", so)] = pool.submit(
             _tlc, "MC_ChunkVec", "MC_ChunkVec_sim.cfg", work, workers=1,
@@ -130,7 +144,7 @@ def _run(chk: Check, tier: str, T: dict, work):
     for cfg in T["gen"]:
         r = get("gen", cfg)
         if not r.ok:
-            raise MachineryError(f"generator {cfg}: invariant {r.violated} violated with the alias case excluded")
+            raise MachineryError(f"generator {cfg}: the chunk model violates {r.violated}")
         chk.add_tlc(r)
         hs = r.records
         if not hs:
@@ -163,34 +177,48 @@ def _run(chk: Check, tier: str, T: dict, work):
     if REQUIRED_BRANCHES - seen_br:
         raise MachineryError(f"replayed histories never reach: {sorted(REQUIRED_BRANCHES - seen_br)}")
 
-    # ---- 2b/4. the faithful model: TLC must exhibit the aliasing counterexample; replay it
-    r = get("alias", "MC_ChunkVec_alias.cfg")
+    alias_steps = sum(1 for k in chk.cov["branches_replayed"] if k.endswith("+wholechunk"))
+    chk.cov["alias_case_commands_replayed"] = sum(
+        v for k, v in chk.cov["branches_replayed"].items() if k.endswith("+wholechunk")
+    )
+    if not alias_steps:
+        raise MachineryError("no replayed history contains the alias case")
+
+    # ---- 4. regression model (the code before 1a97aee): TLC must refute it; its counterexamples are
+    #         replayed into the real code (must agree with the flat model) and into the re-broken variant
+    r = get("regression", REGRESSION_CFG)
     chk.add_tlc(r)
     cex = [x for x in r.records if isinstance(x, dict) and "cex" in x]
-    chk.cov["faithful_model_violated"] = r.violated
-    if r.violated is None:
-        chk.notes.append("faithful ChunkVec model no longer violates the refinement (model changed?)")
-    elif not str(r.violated).startswith("Inv"):
-        raise MachineryError(f"faithful model: unexpected TLC error {r.violated}")
-    elif not cex:
-        raise MachineryError("faithful model violated an invariant but printed no counterexample record")
-    chk.cov["faithful_model_counterexamples"] = len(cex)
+    chk.cov["regression_model_violates"] = r.violated
+    if r.violated is None or not str(r.violated).startswith("Inv"):
+        raise MachineryError(f"negative control: the by-reference chunk model is not refuted by TLC ({r.violated})")
+    if not cex:
+        raise MachineryError("the by-reference chunk model violated an invariant but printed no counterexample")
+    chk.cov["regression_model_counterexamples"] = len(cex)
     cex = _diverse(cex)
     _replay_cex(chk, cex)
 
     # ---- 5. negative controls
     t_neg = time.time()
-    _negative_controls(chk, variants, sample_for_controls, cex, procs)
+    _negative_controls(chk, variants, sample_for_controls, procs)
     timings["controls"] = round(time.time() - t_neg, 1)
 
-    # ---- 2a. refinement with the aliasing case excluded
+    # ---- 5b. negative controls of the invariants: wrong chunk models must be rejected by TLC
+    chk.cov["model_mutants"] = {}
+    for m, inv in MODEL_MUTANTS.items():
+        r = get("mutant", m)
+        chk.cov["model_mutants"][m] = r.violated
+        if r.violated != inv:
+            raise MachineryError(f"negative control: chunk model mutant {m!r} must violate {inv}, TLC says {r.violated}")
+
+    # ---- 2. refinement over the whole alphabet
     never = {}
     for cfg in T["refine"]:
         r = get("refine", cfg)
         if not r.ok:
             rec = [x for x in r.records if isinstance(x, dict) and "cex" in x]
             raise MachineryError(
-                f"refinement {cfg} fails with the alias case excluded: {r.violated}; "
+                f"refinement {cfg} fails: {r.violated}; "
                 f"{json.dumps(rec[0])[:1500] if rec else r.stdout[-1500:]}"
             )
         chk.add_tlc(r)
@@ -267,40 +295,46 @@ def _diverse(cex: list, per_class: int = 2, limit: int = 10) -> list:
 
 
 def _replay_cex(chk: Check, cex: list):
-    """Counterexamples of the faithful chunk model, replayed into the real code (in sandboxed workers:
-    vectors that contain each other can make the real append() run for ever)."""
-    if not cex:
-        chk.cov["tlc_counterexamples_reproduced"] = 0
-        return
+    """Violating histories of the by-reference chunk model, replayed (in sandboxed workers: vectors that
+    contain each other make append() run for ever) into the real code, which must agree with the flat
+    model, and into the variant that re-introduces the defect, which must be rejected on every one."""
     hs = [x["hist"] for x in cex]
     preds = [{"model": x["model"], "mlen": x["mlen"]} for x in cex]
-    res = R.run_batch(hs, REAL, seed=chk.seed, procs=2, chunk=1, predicts=preds)
-    reproduced = 0
-    first = True
+    res = R.run_batch(hs, REAL, seed=chk.seed, procs=2, chunk=1)
     for idx, drv, o, key in res:
-        x, h = cex[idx], hs[idx]
+        chk.count("traces_validated_against_impl")
+        chk.count("evaluations", o["steps_compared"])
         if o["ok"]:
-            chk.notes.append(f"TLC counterexample {x['cex']} {R.describe(h)} does not reproduce on {drv}")
+            chk.count("regression_histories_agree")
             continue
-        reproduced += 1
-        chk.count("model_prediction_confirmed" if o["predicted"] else "model_prediction_differs")
+        x, h = cex[idx], hs[idx]
         hh = h[: o["step"] + 1]
         chk.violation(
             key,
-            f"{drv}: an aligned set_slice whose value is a ByteVec stores it by reference "
-            f"(TLC invariant {x['cex']}); history {R.describe(hh)}: {o['detail']}",
+            f"{drv} behaves like the by-reference chunk model (TLC invariant {x['cex']}): "
+            f"history {R.describe(hh)}: {o['detail']}",
             {"driver": drv, "history": hh, "commands": R.describe(hh), "outcome": o,
              "tlc_invariant": x["cex"], "tlc_history": R.describe(h),
-             "chunk_model_predicts": {"unwrap": x["model"], "len": x["mlen"]}, "flat_model": x["flat"],
-             "prediction_confirmed": o["predicted"]},
+             "by_reference_model_predicts": {"unwrap": x["model"], "len": x["mlen"]}, "flat_model": x["flat"]},
         )
-        if first:
-            chk.sample({"source": "faithful-model counterexample", "commands": R.describe(hh), "detail": o["detail"]})
-            first = False
-    chk.cov["tlc_counterexamples_reproduced"] = reproduced
+    res = R.run_batch(hs, [REGRESSION_VARIANT], seed=chk.seed, procs=2, chunk=1, predicts=preds)
+    rej = pred = 0
+    for idx, _d, o, key in res:
+        if o["ok"]:
+            raise MachineryError(
+                f"negative control: variant {REGRESSION_VARIANT} is accepted on {R.describe(hs[idx])} "
+                f"(TLC invariant {cex[idx]['cex']})"
+            )
+        if key != R.ALIAS_KEY:
+            raise MachineryError(f"negative control: variant {REGRESSION_VARIANT} is rejected under key {key}")
+        rej += 1
+        pred += 1 if o["predicted"] else 0
+    chk.cov["regression_variant"] = {"histories": len(hs), "rejected": rej, "behaves_as_model_predicts": pred}
+    chk.sample({"source": "by-reference model counterexample (real code agrees with ByteSeq, re-broken variant rejected)",
+                "commands": R.describe(hs[0])})
 
 
-def _negative_controls(chk: Check, variants: dict, hists: list, cex: list, procs: int):
+def _negative_controls(chk: Check, variants: dict, hists: list, procs: int):
     if not hists:
         raise MachineryError("no histories for the negative controls")
     names = list(variants)
@@ -312,20 +346,9 @@ def _negative_controls(chk: Check, variants: dict, hists: list, cex: list, procs
     chk.cov["negative_controls"] = {}
     for n, (_cls, must) in variants.items():
         chk.cov["negative_controls"][n] = {"histories": len(hists), "rejected": rejected[n], "must_reject": must}
-        if must and rejected[n] == 0:
+        if must and rejected[n] == 0 and n != REGRESSION_VARIANT:  # (that one is judged on the TLC counterexamples)
             raise MachineryError(f"negative control: broken ByteVec variant {n} was accepted on {len(hists)} histories")
-        if not must and rejected[n] != 0:
-            bad = next((hists[i], o) for i, d, o, _k in res if d == n and not o["ok"])
-            raise MachineryError(f"candidate fix {n} is rejected: {R.describe(bad[0])}: {bad[1]['detail']}")
-    # the candidate fix must also repair the TLC counterexamples
     vals = R.Valuations(chk.seed)
-    fixed = 0
-    cx = [x["hist"] for x in cex[:8]]
-    for idx, _d, o, _k in (R.run_batch(cx, ["fix-aligned-unpack"], seed=chk.seed, procs=2, chunk=1) if cx else []):
-        if not o["ok"]:
-            raise MachineryError(f"candidate fix does not repair {R.describe(cx[idx])}: {o['detail']}")
-        fixed += 1
-    chk.cov["negative_controls"]["fix-aligned-unpack"]["counterexamples_repaired"] = fixed
     # specification side: one corrupted expected byte must be noticed
     import random
 
@@ -345,16 +368,22 @@ def _negative_controls(chk: Check, variants: dict, hists: list, cex: list, procs
 
 
 def replay(chk: Check, path: str):
-    """bin/check C07 --replay <file>: re-run one recorded disagreement"""
+    """bin/check C07 --replay <file>: re-run one recorded disagreement (the evidence file of the last
+    full run is left alone: a replay explores no state space)"""
     d = json.loads(open(path).read())
     R.register_variants()
-    vals = R.Valuations(chk.seed)
     h = d["history"]
     drv = d.get("driver", "ByteVec")
-    o = R.replay(h, R.DRIVERS[drv], vals, chk.seed)
+    o_d, key = R.run_batch([h], [drv], seed=chk.seed, procs=2, chunk=1)[0][2:]
     print("\n".join(R.describe(h)))
-    if o.ok:
-        print("replay: the implementation now agrees with ByteSeq on this history")
+
+    def finish_without_evidence():
+        print(f"[{chk.pid}/replay] {'VIOLATED' if chk.nviol else 'ok'}", flush=True)
+        return 1 if chk.nviol else 0
+
+    chk.finish = finish_without_evidence
+    if o_d["ok"]:
+        print(f"replay: {drv} agrees with ByteSeq on this history")
         return
-    chk.violation(o.key(h), f"{drv}: {o.detail}", {"driver": drv, "history": h, "commands": R.describe(h),
-                                                   "outcome": o.as_dict()})
+    chk.violation(key, f"{drv}: {o_d['detail']}", {"driver": drv, "history": h, "commands": R.describe(h),
+                                                  "outcome": o_d})
